@@ -78,8 +78,8 @@ class Outcome:
 
 class FunctionSpec:
     def __init__(self, qual, file, params, returns=None, requires=None, ensures=None, modifies=(), raises=None, loops=None,
-                 locals=None, decreases=None, generator=False, defaults=None, cls=None, ghost=None, pure=False, note='', name=None, constructs=None, globals_=None, isinstance_preds=None):
-        self.name = name or qual; self.constructs = constructs; self.globals_ = globals_ or {}; self.isinstance_preds = isinstance_preds or {}
+                 locals=None, decreases=None, generator=False, defaults=None, cls=None, ghost=None, pure=False, note='', name=None, constructs=None, globals_=None, isinstance_preds=None, opaque_functions=(), numpy_division=False):
+        self.name = name or qual; self.constructs = constructs; self.globals_ = globals_ or {}; self.isinstance_preds = isinstance_preds or {}; self.opaque_functions = set(opaque_functions); self.numpy_division = numpy_division
         self.qual, self.file, self.params, self.returns = qual, file, params, returns
         self.requires = requires or (lambda o: BoolVal(True)); self.ensures = ensures or (lambda o, n, r: [])
         self.modifies = list(modifies); self.raises = raises or {}; self.loops = loops or {}; self.locals = locals or {}
@@ -250,7 +250,9 @@ class Engine:
                         self.obls.append(Obl('%s#frame.%s' % (qual, p), s2.pc, new[p] == old[p]))
                 if spec.returns is not None and ret is None and not spec.generator:
                     raise Unsupported('path returns None but contract declares a result')
-                for label, g in spec.ensures(old, new, ret):
+                import inspect
+                ens = spec.ensures(old, new, ret, self.view(s2)) if len(inspect.signature(spec.ensures).parameters) >= 4 else spec.ensures(old, new, ret)
+                for label, g in ens:
                     self.oblige(s2, 'post', label, g)
                 for exc, cond in spec.raises.items():
                     self.oblige(s2, 'raises', exc + '.must', Not(cond(old)))
@@ -307,6 +309,8 @@ class Engine:
             raise Unsupported('merge None with tuple (%s)' % name)
         if isinstance(a, PTup) and isinstance(b, PTup) and len(a.items) == len(b.items):
             return PTup([self.merge_val(m, cond, x, y, name) for x, y in zip(a.items, b.items)])
+        if isinstance(a, PV) and isinstance(b, PV) and a.t != b.t and isinstance(a.t, (TInt, TReal)) and isinstance(b.t, (TInt, TReal)):
+            a = PV(REAL, ToReal(a.term), a.none) if isinstance(a.t, TInt) else a; b = PV(REAL, ToReal(b.term), b.none) if isinstance(b.t, TInt) else b     # 0 on one branch, a float on the other
         if isinstance(a, PV) and isinstance(b, PV) and a.t == b.t:
             none = False if (a.none is False and b.none is False) else If(cond, a.none if a.none is not False else BoolVal(False), b.none if b.none is not False else BoolVal(False))
             if a.term.eq(b.term): return PV(a.t, a.term, none)
